@@ -24,10 +24,16 @@ How Python is rendered.
   * `await context.hook.ahook.on_change_script(...)` inside an async method is a suspension: the method returns
     [Await self (OnChangeScript script filename) k], `k` being the rest of the method applied to the composer as it
     is when the hook call returns; the end of the method is [Ret self].
-Ignored (untracked): docstrings, `pass`, logger calls and `logger = getLogger(..)`, asserts that contain no call,
-comments, type annotations without value, `__repr__`/`__str__`.  Everything else in a tracked position raises
-[Unsupported] (= a broken tie obligation): other statements, other calls, assignments to other attributes of self,
-other methods in RunArgComposer, locals assigned under an `if` and used after it, side effects under a
+Ignored (the shared rule): docstrings, `pass`, bare annotations of a local, `logger.<level>(...)` / `logger = getLogger(..)`
+whose arguments contain no Call / walrus / await / yield / lambda / comprehension; comments.  `__repr__`/`__str__` of
+RunArgComposer are not translated but must be inert (no store, no counter call).  NOT ignored: `assert` -- in start / reset it
+is a branch ending in [Raise self], in the registrars a branch ending in [None], elsewhere refused.
+Nextline.__init__ / Nextline.reset (main.py) are translated as statement lists: the generated function is the record handed
+to Imp(...) / Imp.reset(...); stores through a record, `if`, loops, `try` there are refused.
+Everything else in a tracked position raises [Unsupported] (= a broken tie obligation): other statements (`try`, `with`,
+`raise`, loops), other calls, assignments to other attributes of self, other methods in RunArgComposer (`__post_init__`,
+`__bool__`, ...), methods / bases / unusual decorators on the translated dataclasses, module-level re-binding of a translated
+name, locals assigned under an `if` and used after it, side effects under a
 short-circuit."""
 from __future__ import annotations
 
@@ -88,6 +94,7 @@ OPTION_FIELDS = ['statement', 'run_no_start_from', 'trace_threads', 'trace_modul
 RUNARG_FIELDS = ['run_no', 'statement', 'filename', 'trace_threads', 'trace_modules']
 PREFIX = {'InitOptions': 'io_', 'ResetOptions': 'ro_', 'RunArg': 'rg_', 'RunInfo': 'ri_', 'Context': 'cx_'}
 LOG_METHODS = {'debug', 'info', 'warning', 'error', 'exception', 'critical', 'log'}
+LOGGER_NAMES = {'logger', 'log', '_logger'}       # a local of this name is only ever a logger (any other assignment to it is refused)
 
 
 def cstr(s: str) -> str:
@@ -155,6 +162,8 @@ class Translator:
         if is_opt(t):
             v = self.fresh()
             return f'(match {term} with Some {v} => {self.truthy(t[1], v, node)} | None => false end)'
+        if is_rec(t) and t[1] in self.records and t[1] != 'Context':
+            return 'true'      # instance of a dataclass translated here: no __bool__ / __len__ (methods are refused)
         self.bad(node, f'the truth value of a value of type {show(t)} is not modelled')
 
     def eqb(self, t, a, b, node=None) -> str:
@@ -216,8 +225,11 @@ class Translator:
         if len(cs) != 1:
             self.bad(tree, f'class {name} not found once')
         c = cs[0]
-        if not any('dataclass' in ast.unparse(d) for d in c.decorator_list):
-            self.bad(c, f'{name} is not a dataclass')
+        decos = [ast.unparse(d) for d in c.decorator_list]
+        if len(decos) != 1 or decos[0] not in ('dataclass', 'dataclasses.dataclass', 'dataclass(frozen=True)', 'dataclasses.dataclass(frozen=True)'):
+            self.bad(c, f'{name}: decorators {decos}')
+        if c.bases or c.keywords:
+            self.bad(c, f'{name} has base classes')
         fields = []
         for st in docless(c.body):
             if isinstance(st, ast.Pass):
@@ -502,22 +514,29 @@ class Translator:
 
     # ------------------------------------------------------------ statements
     def ignorable(self, s) -> bool:
+        """the shared rule for ignored positions: docstrings, `pass`, bare annotations of a local, and logger calls /
+        `logger = getLogger(..)` whose arguments contain no Call, NamedExpr, Await, Yield, Lambda or comprehension.
+        Nothing else is ignored; in particular no `assert` (translated as a raising branch, or refused)."""
         if isinstance(s, ast.Pass):
             return True
         if isinstance(s, ast.Expr) and isinstance(s.value, ast.Constant):
             return True
         if isinstance(s, ast.AnnAssign) and s.value is None and isinstance(s.target, ast.Name):
             return True
-        harmless = not any(isinstance(n, (ast.NamedExpr, ast.Await, ast.Yield, ast.YieldFrom)) for n in ast.walk(s)) and \
-            not any(isinstance(n, ast.Call) and '_run_no_count' in ast.unparse(n.func) for n in ast.walk(s))
+
+        def clean(nodes) -> bool:
+            for a in nodes:
+                for n in ast.walk(a):
+                    if isinstance(n, (ast.Call, ast.NamedExpr, ast.Await, ast.Yield, ast.YieldFrom, ast.Lambda, ast.ListComp, ast.SetComp,
+                                      ast.DictComp, ast.GeneratorExp, ast.Starred)):
+                        return False
+            return True
         if isinstance(s, ast.Expr) and isinstance(s.value, ast.Call) and isinstance(s.value.func, ast.Attribute) \
-                and s.value.func.attr in LOG_METHODS and isinstance(s.value.func.value, ast.Name) and 'log' in s.value.func.value.id.lower():
-            return harmless
-        if isinstance(s, ast.Assign) and len(s.targets) == 1 and isinstance(s.targets[0], ast.Name) and isinstance(s.value, ast.Call) \
-                and ast.unparse(s.value.func) in ('getLogger', 'logging.getLogger'):
-            return harmless
-        if isinstance(s, ast.Assert):
-            return not any(isinstance(n, (ast.Call, ast.NamedExpr, ast.Await)) for n in ast.walk(s))
+                and s.value.func.attr in LOG_METHODS and isinstance(s.value.func.value, ast.Name) and s.value.func.value.id in LOGGER_NAMES:
+            return clean(s.value.args + [k.value for k in s.value.keywords])
+        if isinstance(s, ast.Assign) and len(s.targets) == 1 and isinstance(s.targets[0], ast.Name) and s.targets[0].id in LOGGER_NAMES \
+                and isinstance(s.value, ast.Call) and ast.unparse(s.value.func) in ('getLogger', 'logging.getLogger'):
+            return clean(s.value.args + [k.value for k in s.value.keywords])
         return False
 
     @staticmethod
@@ -585,12 +604,24 @@ class Translator:
                     pre.append(f'let self := set{tg.attr} self {v} in')
                 return out(self.block(rest, env, kind, tail))
             if isinstance(tg, ast.Name):
+                if tg.id in LOGGER_NAMES:
+                    self.bad(s, 'a name reserved for loggers is assigned something else')
                 name = self.lname(tg.id)
                 pre.append(f'let {name} := {v} in')
                 env.vars[tg.id] = (name, t)
                 env.narrow.pop(tg.id, None)
                 return out(self.block(rest, env, kind, tail))
             self.bad(s, 'assignment target')
+        if isinstance(s, ast.Assert):
+            # `assert t[, msg]`: AssertionError out of the method, the attributes as they are at that point
+            if kind != 'async':
+                self.bad(s, 'assert in a method whose translation has no raising outcome')
+            if s.msg is not None and not isinstance(s.msg, ast.Constant):
+                self.bad(s, 'assert message')
+            probe_pre: list[str] = []
+            self.cond(s.test, env, probe_pre, lambda e1: '_', lambda e1: '_')
+            pre.extend(probe_pre)
+            return out(self.cond(s.test, env, [], lambda e1: self.block(rest, e1, kind, tail), lambda e1: 'Raise self'))
         if isinstance(s, ast.Return):
             if kind == 'value':
                 if s.value is None:
@@ -688,7 +719,16 @@ class Translator:
         tree = ast.parse((self.repo / 'nextline/count.py').read_text())
         if not any(isinstance(s, ast.ImportFrom) and s.module == 'itertools' and any(a.name == 'count' and a.asname is None for a in s.names) for s in tree.body):
             raise Unsupported('count.py: `from itertools import count` not found')
+        binders = [(al.asname or al.name, s.module) for s in tree.body if isinstance(s, ast.ImportFrom) for al in s.names] + \
+                  [((al.asname or al.name).split('.')[0], None) for s in tree.body if isinstance(s, ast.Import) for al in s.names]
+        if [m for n, m in binders if n == 'count'] != ['itertools'] or [m for n, m in binders if n == 'RunNo'] != ['nextline.types'] \
+                or any(n in ('RunNoCounter', 'CastedCounter') for n, _ in binders):
+            raise Unsupported('count.py: count / RunNo / RunNoCounter / CastedCounter are not bound exactly by the expected imports and defs')
         for s in tree.body:
+            if not isinstance(s, (ast.Import, ast.ImportFrom, ast.FunctionDef, ast.Assign, ast.AnnAssign)) and not self.ignorable(s):
+                self.bad(s, 'module-level statement of count.py')
+            if isinstance(s, ast.Assign) and any(not isinstance(t, ast.Name) for t in s.targets):
+                self.bad(s, 'module-level store through an object in count.py')
             if isinstance(s, (ast.FunctionDef, ast.ClassDef, ast.AsyncFunctionDef)) and s.name in ('count', 'RunNo'):
                 raise Unsupported(f'count.py: {s.name} redefined')
             if isinstance(s, (ast.Assign, ast.AnnAssign)) and ({'count', 'RunNo', 'RunNoCounter', 'CastedCounter'} & self.stored_names([s])):
@@ -791,15 +831,19 @@ class Translator:
         for s in tree.body:
             if isinstance(s, ast.ImportFrom):
                 for al in s.names:
+                    if (al.asname or al.name) in imported:
+                        self.bad(s, 'a name is imported twice')
                     imported[al.asname or al.name] = (s.module, al.name)
             elif isinstance(s, ast.Import):
                 pass
             elif isinstance(s, ast.Assign) and len(s.targets) == 1 and isinstance(s.targets[0], ast.Name):
                 term, t = self.const(s.value)
                 nm = s.targets[0].id
+                if nm in imported or nm in self.globals or nm in ('RunArgComposer', 'hookimpl', 'Context'):
+                    self.bad(s, 'module-level re-binding')
                 self.globals[nm] = (nm, t)
                 out.append(f'Definition {nm} : {coq_type(t)} := {term}.')
-            elif isinstance(s, ast.ClassDef) or self.ignorable(s):
+            elif (isinstance(s, ast.ClassDef) and s.name == 'RunArgComposer') or self.ignorable(s):
                 pass
             else:
                 self.bad(s, 'module-level statement')
@@ -817,6 +861,14 @@ class Translator:
             if isinstance(st, (ast.FunctionDef, ast.AsyncFunctionDef)):
                 if st.name not in known:
                     self.bad(st, f'unknown method {st.name} of RunArgComposer')
+                if st.name in ('__repr__', '__str__'):
+                    # untranslated: must be inert (no store through anything, no call of the counter, no await/walrus)
+                    for n in ast.walk(st):
+                        if isinstance(n, (ast.Await, ast.NamedExpr, ast.Yield, ast.YieldFrom, ast.Global, ast.Nonlocal, ast.Delete)) or \
+                                (isinstance(n, (ast.Attribute, ast.Subscript)) and isinstance(n.ctx, (ast.Store, ast.Del))) or \
+                                (isinstance(n, ast.Call) and ('_run_no_count' in ast.unparse(n.func) or ast.unparse(n.func) in ('setattr', 'delattr', 'vars', 'exec', 'eval'))) or \
+                                (isinstance(n, ast.Attribute) and n.attr == '__dict__'):
+                            self.bad(n, f'{st.name} is not inert')
             elif not self.ignorable(st):
                 self.bad(st, 'statement in the body of RunArgComposer')
         fields = '; '.join(f'a{a} : {coq_type(t)}' for a, t in TRACKED)
@@ -827,7 +879,8 @@ class Translator:
             out.append(f'Definition set{a} (self : Composer) (x : {coq_type(t)}) : Composer := Composer_mk {args}.')
         out += ['(* a hook awaited inside a method, and a method that may suspend there *)',
                 'Inductive hookcall := OnChangeScript (script : Z) (filename : string).',
-                'Inductive susp := Ret (self : Composer) | Await (self : Composer) (h : hookcall) (k : Composer -> susp).']
+                '(* Ret: the method returns; Raise: an assert of the method fails (the attributes as they are then); Await: suspended in the hook *)',
+                'Inductive susp := Ret (self : Composer) | Raise (self : Composer) | Await (self : Composer) (h : hookcall) (k : Composer -> susp).']
         # init
         f, params = self.method(cls, 'init', False)
         if params != ['self', 'init_options']:
@@ -859,16 +912,27 @@ class Translator:
         return out
 
     def main_py(self) -> list[str]:
-        """Nextline.__init__ / Nextline.reset: the options record built from the arguments"""
+        """Nextline.__init__ / Nextline.reset as STATEMENT LISTS: every statement of the two bodies is either translated
+        (a local or `self._x` bound to a translatable expression; the final hand-over of the record), ignorable by the
+        shared rule, or -- in __init__ only -- an assignment `self._y = e` whose `e` mentions neither an option argument
+        nor the option record.  Stores through a record (`reset_options.x = ..`), `if`, loops, `try`, re-binding of
+        an option argument by anything but a translatable expression: refused.  The generated function is the record
+        that is HANDED OVER (`self._imp.reset(reset_options=E)`, `Imp(nextline=self, init_options=E)`), as a function of
+        the arguments."""
         self.where = 'nextline/main.py'
         tree = ast.parse((self.repo / 'nextline/main.py').read_text())
         cs = [c for c in tree.body if isinstance(c, ast.ClassDef) and c.name == 'Nextline']
         if len(cs) != 1:
             raise Unsupported('main.py: class Nextline')
-        out = ['(** ---- nextline/main.py: Nextline(...) and Nextline.reset(...) build the option records ---- *)']
+        for st in tree.body:        # the records and Imp are the imported ones
+            if isinstance(st, (ast.Assign, ast.AnnAssign, ast.FunctionDef, ast.AsyncFunctionDef, ast.ClassDef)) and \
+                    ({'InitOptions', 'ResetOptions', 'Imp'} & (self.stored_names([st]) | {getattr(st, 'name', '')})):
+                self.bad(st, 'a name of the option plumbing is re-bound in main.py')
+        out = ['(** ---- nextline/main.py: the option record Nextline(...) hands to Imp / Nextline.reset(...) hands to Imp.reset,',
+               '     computed by the statements of the two methods ---- *)']
         for meth, rec, tag in (('__init__', 'InitOptions', 'Nextline_init'), ('reset', 'ResetOptions', 'Nextline_reset')):
             fs = [f for f in cs[0].body if isinstance(f, (ast.FunctionDef, ast.AsyncFunctionDef)) and f.name == meth]
-            if len(fs) != 1:
+            if len(fs) != 1 or fs[0].decorator_list:
                 raise Unsupported(f'main.py: Nextline.{meth}')
             f = fs[0]
             a = f.args
@@ -877,6 +941,7 @@ class Translator:
             params = a.args[1:]
             defaults = [None] * (len(params) - len(a.defaults)) + list(a.defaults)
             ptypes, pdef = {}, {}
+            other_params = set()
             for p, d in zip(params, defaults):
                 if p.arg in OPTION_FIELDS:
                     if p.annotation is None:
@@ -885,108 +950,178 @@ class Translator:
                     if d is not None:
                         term, dt = self.const(d)
                         pdef[p.arg] = self.coerce(term, dt, ptypes[p.arg], f)
+                else:
+                    other_params.add(p.arg)
             if sorted(ptypes) != sorted(OPTION_FIELDS):
                 self.bad(f, f'arguments {sorted(ptypes)}')
-            calls = [n for n in ast.walk(f) if isinstance(n, ast.Call) and isinstance(n.func, ast.Name) and n.func.id == rec]
-            if len(calls) != 1:
-                self.bad(f, f'exactly one {rec}(...) expected')
-            # the arguments must not be re-bound before the record is built
-            if self.stored_names(f.body) & set(OPTION_FIELDS):
-                self.bad(f, 'an option argument is re-bound')
             env = Env(vars={p: (self.lname(p), t) for p, t in ptypes.items()})
-            pre: list[str] = []
-            term, t = self.expr(calls[0], env, pre)
-            if pre:
-                self.bad(calls[0], 'side effect')
+            lets: list[str] = []
+            attrs: dict[str, tuple] = {}          # self._x -> (term, type), the translated ones
+            handed = None
+
+            def mentions_options(node) -> bool:
+                for n in ast.walk(node):
+                    if isinstance(n, ast.Name) and (n.id in env.vars):
+                        return True
+                    if isinstance(n, ast.Attribute) and isinstance(n.value, ast.Name) and n.value.id == 'self' and ('self.' + n.attr) in attrs:
+                        return True
+                return False
+
+            def hand_over(call, kwname):
+                kw = {k.arg: k.value for k in call.keywords}
+                if call.args or kwname not in kw or None in kw:
+                    self.bad(call, 'hand-over of the option record')
+                pre: list[str] = []
+                e2 = env.copy()
+                e2.narrow.update({k: v for k, v in attrs.items()})
+                term, t = self.expr(kw[kwname], e2, pre)
+                if pre or t != Rec(rec):
+                    self.bad(call, f'a value of type {show(t)} is handed over')
+                for k, v in kw.items():
+                    if k != kwname and not (isinstance(v, ast.Name) and v.id == 'self'):
+                        self.bad(call, 'other argument of the hand-over')
+                return term
+
+            for st in docless(f.body):
+                if self.ignorable(st):
+                    continue
+                if handed is not None:
+                    self.bad(st, 'statement after the hand-over of the option record')
+                if isinstance(st, ast.AnnAssign) and st.value is not None:
+                    st = ast.copy_location(ast.Assign(targets=[st.target], value=st.value), st)
+                # the hand-over
+                if meth == 'reset' and isinstance(st, ast.Expr) and isinstance(st.value, ast.Await) and isinstance(st.value.value, ast.Call) \
+                        and ast.unparse(st.value.value.func) == 'self._imp.reset':
+                    handed = hand_over(st.value.value, 'reset_options')
+                    continue
+                if meth == '__init__' and isinstance(st, ast.Assign) and ast.unparse(st.targets[0]) == 'self._imp' and len(st.targets) == 1 \
+                        and isinstance(st.value, ast.Call) and ast.unparse(st.value.func) == 'Imp':
+                    handed = hand_over(st.value, 'init_options')
+                    continue
+                if isinstance(st, ast.Assign) and len(st.targets) == 1:
+                    tg = st.targets[0]
+                    is_self_attr = isinstance(tg, ast.Attribute) and isinstance(tg.value, ast.Name) and tg.value.id == 'self'
+                    if isinstance(tg, ast.Name) or is_self_attr:
+                        key = tg.id if isinstance(tg, ast.Name) else 'self.' + tg.attr
+                        if not mentions_options(st.value):
+                            # unrelated state of the object (__init__ only): must not touch what is tracked
+                            if meth == '__init__' and is_self_attr and key not in attrs and key != 'self._imp':
+                                continue
+                            self.bad(st, 'assignment not understood')
+                        pre: list[str] = []
+                        e2 = env.copy()
+                        e2.narrow.update(attrs)
+                        v, t = self.expr(st.value, e2, pre)
+                        if pre:
+                            self.bad(st, 'side effect')
+                        name = self.fresh('x')
+                        lets.append(f'let {name} := {v} in')
+                        if isinstance(tg, ast.Name):
+                            if tg.id in LOGGER_NAMES:
+                                self.bad(st, 'logger name')
+                            env.vars[tg.id] = (name, t)
+                        else:
+                            attrs[key] = (name, t)
+                        continue
+                    self.bad(st, 'a store through an object (option records must not be modified)')
+                self.bad(st, 'statement not understood')
+            if handed is None:
+                self.bad(f, 'the option record is not handed over')
             args = ' '.join(f'({self.lname(p)} : {coq_type(ptypes[p])})' for p in OPTION_FIELDS)
-            out.append(f'Definition {tag}_options {args} : {rec} :=\n  {term}.')
+            body = '\n'.join('  ' + l for l in lets + [handed])
+            out.append(f'Definition {tag}_options {args} : {rec} :=\n{body}.')
             for p in OPTION_FIELDS:
                 if p in pdef:
                     out.append(f'Definition {tag}_default_{p} : {coq_type(ptypes[p])} := {pdef[p]}.')
-            # the record reaches the plugin hook unchanged: it is what is passed on
-            src = ast.unparse(f)
-            if meth == 'reset' and 'self._imp.reset(reset_options=reset_options)' not in src:
-                self.bad(f, 'reset_options is not passed to self._imp.reset')
-            if meth == '__init__' and 'init_options=self._init_options' not in src:
-                self.bad(f, 'self._init_options is not passed to Imp')
         return out
 
-    def registrar(self, rel, cls_name, meth, params: dict, fn_name, extra_args: list[tuple[str, str]]):
-        """a straight-line async hook implementation that publishes: -> list of (topic, value)"""
+    def registrar(self, rel, cls_name, meth, params: dict, extra_args: list[str]):
+        """a straight-line async hook implementation that publishes -> `option (list (topic * value))`: [None] = an assert of
+        the method fails (AssertionError), [Some l] = it returns having published l in this order"""
         self.where = rel
         tree = ast.parse((self.repo / rel).read_text())
         cs = [c for c in tree.body if isinstance(c, ast.ClassDef) and c.name == cls_name]
-        if len(cs) != 1:
+        if len(cs) != 1 or cs[0].bases or cs[0].decorator_list:
             raise Unsupported(f'{rel}: class {cls_name}')
         fs = [f for f in cs[0].body if isinstance(f, ast.AsyncFunctionDef) and f.name == meth]
         if len(fs) != 1 or [ast.unparse(d) for d in fs[0].decorator_list] != ['hookimpl']:
             raise Unsupported(f'{rel}: {cls_name}.{meth}')
         f = fs[0]
         got = [x.arg for x in f.args.args]
-        if got != ['self'] + list(params):
+        if got != ['self'] + list(params) or f.args.defaults or f.args.kwonlyargs or f.args.vararg or f.args.kwarg:
             self.bad(f, f'parameters {got}')
         env = Env(vars=dict(params))
-        for n, tm in extra_args:
+        for n in extra_args:
             env.vars[n] = (n, BOOL)
-        pubs = []
-        lets: list[str] = []
-        attrs: dict[str, tuple] = {}
-        for s in docless(f.body):
-            if self.ignorable(s):
-                continue
+
+        def go(stmts, env, pubs) -> str:
+            stmts = [x for x in stmts if not self.ignorable(x)]
+            if not stmts:
+                return 'Some [' + '; '.join(pubs) + ']'
+            s, rest = stmts[0], stmts[1:]
             pre: list[str] = []
+            if isinstance(s, ast.Assert):
+                if s.msg is not None and not isinstance(s.msg, ast.Constant):
+                    self.bad(s, 'assert message')
+                self.cond(s.test, env, pre, lambda e1: '_', lambda e1: '_')
+                body = self.cond(s.test, env, [], lambda e1: go(rest, e1, pubs), lambda e1: 'None')
+                return '\n'.join(pre + [body])
             if isinstance(s, ast.If) and len(s.body) == 1 and len(s.orelse) == 1 and all(
                     isinstance(b, ast.Assign) and len(b.targets) == 1 and isinstance(b.targets[0], ast.Name) for b in (s.body[0], s.orelse[0])) \
                     and s.body[0].targets[0].id == s.orelse[0].targets[0].id:
                 val = ast.IfExp(test=s.test, body=s.body[0].value, orelse=s.orelse[0].value)
-                s = ast.Assign(targets=[s.body[0].targets[0]], value=val)
+                s = ast.copy_location(ast.Assign(targets=[s.body[0].targets[0]], value=val), s)
                 ast.fix_missing_locations(s)
             if isinstance(s, ast.Assign) and len(s.targets) == 1:
                 tg = s.targets[0]
                 key = None
                 if isinstance(tg, ast.Attribute) and isinstance(tg.value, ast.Name) and tg.value.id == 'self':
                     key = ast.unparse(tg)
-                elif isinstance(tg, ast.Name):
+                elif isinstance(tg, ast.Name) and tg.id not in LOGGER_NAMES and tg.id not in params:
                     key = tg.id
                 if key is None:
                     self.bad(s, 'assignment target')
                 v, t = self.expr(s.value, env, pre)
                 name = self.fresh('x')
-                lets += pre + [f'let {name} := {v} in']
+                pre.append(f'let {name} := {v} in')
                 if isinstance(tg, ast.Name):
                     env.vars[key] = (name, t)
+                    env.narrow.pop(key, None)
                 else:
                     env.narrow[key] = (name, t)      # later reads of self._attr
-                continue
+                return '\n'.join(pre + [go(rest, env, pubs)])
             if isinstance(s, ast.Expr) and isinstance(s.value, ast.Await) and isinstance(s.value.value, ast.Call) \
                     and ast.unparse(s.value.value.func) == 'context.pubsub.publish' and len(s.value.value.args) == 2 and not s.value.value.keywords:
                 topic, tt = self.const(s.value.value.args[0])
                 v, t = self.expr(s.value.value.args[1], env, pre)
-                lets += pre
                 ctor = {INT: 'PvInt', STMT: 'PvStmt', STR: 'PvStr', Rec('RunInfo'): 'PvRunInfo'}.get(t)
                 if tt != STR or ctor is None:
                     self.bad(s, f'publication of a value of type {show(t)}')
-                pubs.append(f'({topic}, {ctor} {v})')
-                continue
+                return '\n'.join(pre + [go(rest, env, pubs + [f'({topic}, {ctor} {v})'])])
             self.bad(s, 'statement not understood')
-        return '\n'.join(lets + ['[' + '; '.join(pubs) + ']'])
+        return go(docless(f.body), env, [])
 
     def registrars_py(self) -> list[str]:
-        # Context as far as these hooks read it: run_arg (asserted to be set)
-        self.records['Context'] = [('run_arg', Rec('RunArg'), None)]
-        out = ['(** ---- nextline/plugin/plugins/registrars: what the built-in plugins publish ---- *)',
+        # Context as far as these hooks read it: run_arg (RunArg | None in plugin/spec.py)
+        self.where = 'nextline/plugin/spec.py'
+        spec = ast.parse((self.repo / 'nextline/plugin/spec.py').read_text())
+        cx = [c for c in spec.body if isinstance(c, ast.ClassDef) and c.name == 'Context']
+        ra = [st for c in cx for st in c.body if isinstance(st, ast.AnnAssign) and isinstance(st.target, ast.Name) and st.target.id == 'run_arg']
+        if len(cx) != 1 or len(ra) != 1 or ast.unparse(ra[0].annotation) not in ('spawned.RunArg | None', 'Optional[spawned.RunArg]', 'RunArg | None', 'Optional[RunArg]'):
+            raise Unsupported('plugin/spec.py: Context.run_arg is not `RunArg | None`')
+        self.records['Context'] = [('run_arg', Opt(Rec('RunArg')), None)]
+        out = ['(** ---- nextline/plugin/plugins/registrars: what the built-in plugins publish ([None]: an assert fails) ---- *)',
                'Inductive pubval := PvInt (n : Z) | PvStmt (s : Z) | PvStr (s : string) | PvRunInfo (r : RunInfo).',
-               'Record HookContext := HookContext_mk { cx_run_arg : RunArg }.']
+               'Record HookContext := HookContext_mk { cx_run_arg : option RunArg }.']
         ctx = {'context': ('context', Rec('Context'))}
         b = self.registrar('nextline/plugin/plugins/registrars/script.py', 'ScriptRegistrar', 'on_change_script',
-                           {'context': ('context', Rec('Context')), 'script': ('script', STMT), 'filename': ('filename', STR)}, '', [])
-        out.append(f'Definition ScriptRegistrar_on_change_script (script : Z) (filename : string) : list (string * pubval) :=\n{b}.')
-        b = self.registrar('nextline/plugin/plugins/registrars/run_no.py', 'RunNoRegistrar', 'on_initialize_run', ctx, '', [])
-        out.append(f'Definition RunNoRegistrar_on_initialize_run (context : HookContext) : list (string * pubval) :=\n{b}.')
-        b = self.registrar('nextline/plugin/plugins/registrars/run_info.py', 'RunInfoRegistrar', 'on_initialize_run', ctx, '',
-                           [('statement_is_str', 'bool')])
+                           {'context': ('context', Rec('Context')), 'script': ('script', STMT), 'filename': ('filename', STR)}, [])
+        out.append(f'Definition ScriptRegistrar_on_change_script (context : HookContext) (script : Z) (filename : string) : option (list (string * pubval)) :=\n{b}.')
+        b = self.registrar('nextline/plugin/plugins/registrars/run_no.py', 'RunNoRegistrar', 'on_initialize_run', ctx, [])
+        out.append(f'Definition RunNoRegistrar_on_initialize_run (context : HookContext) : option (list (string * pubval)) :=\n{b}.')
+        b = self.registrar('nextline/plugin/plugins/registrars/run_info.py', 'RunInfoRegistrar', 'on_initialize_run', ctx, ['statement_is_str'])
         out.append('(* statement_is_str: the answer of isinstance(context.run_arg.statement, str) *)')
-        out.append(f'Definition RunInfoRegistrar_on_initialize_run (context : HookContext) (statement_is_str : bool) : list (string * pubval) :=\n{b}.')
+        out.append(f'Definition RunInfoRegistrar_on_initialize_run (context : HookContext) (statement_is_str : bool) : option (list (string * pubval)) :=\n{b}.')
         return out
 
     def run(self) -> str:
